@@ -1,5 +1,5 @@
 (* C11 - tune2fs conversions preserve data and consistency: the proved part is the feature edit *)
-From E2V Require Import Gen.FeatureMasks Tune.FeatureEdit Tune.FeatureEditProofs.
+From E2V Require Import Gen.FeatureMasks Tune.FeatureEdit Tune.FeatureEditProofs Tune.MntOpts Tune.MntOptsProofs.
 Local Open Scope N_scope.
 
 (* an accepted -O list changes no feature bit it does not name *)
@@ -41,6 +41,23 @@ Theorem masks_protect_structure :
   allowed src_ok_features src_clear_ok_features (EClear 1 32768) = false.    (* inline_data *)
 Proof. vm_compute. repeat split; reflexivity. Qed.
 Print Assumptions masks_protect_structure.
+
+(* default mount options (tune2fs -o): naming a journal mode stores exactly that mode whatever was stored before
+   (journal_data 0x20, journal_data_ordered 0x40, journal_data_writeback 0x60 share the field 0x60), and an item
+   leaves every bit alone that is neither its own nor, for a journal mode, part of that field *)
+Theorem mount_option_journal_mode_is_exact : forall cur m, (m = 32 \/ m = 64 \/ m = 96) ->
+  N.land (mnt_step cur false m) JMODE = m.
+Proof. intros cur m H; destruct H as [H|[H|H]]; subst m; apply set_jmode_exact; (reflexivity || discriminate). Qed.
+Print Assumptions mount_option_journal_mode_is_exact.
+
+Theorem mount_option_changes_only_its_bits : forall cur neg m i,
+  N.testbit m i = false -> (N.land m JMODE <> 0 -> N.testbit JMODE i = false) ->
+  N.testbit (mnt_step cur neg m) i = N.testbit cur i.
+Proof. exact other_bits_kept. Qed.
+Print Assumptions mount_option_changes_only_its_bits.
+
+Example mount_option_example : mnt_run 12 [(false, 32); (false, 64)] = 76 /\ mnt_run 12 [(false, 96); (true, 32)] = 12 /\ mnt_run 12 [(true, 8); (false, 2048)] = 2052.
+Proof. vm_compute. repeat split; reflexivity. Qed.
 
 Example edit_example :
   tune2fs_edit [60; 706; 1131] [EClear 2 1024; ESet 2 16; ESet 1 1024] = Some [60; 1730; 123] /\
